@@ -2,7 +2,7 @@
    Statements only; proofs in C04/Proofs*.v (built on the C02 solver model). *)
 From Coq Require Import List Arith QArith Qminmax Lqa Lia Bool.
 From AIT Require Import Base.Qx Base.Mdp Base.MdpExec C02.Model C02.Spec C02.ProofsVec C02.ProofsCross
-  C02.ProofsSched C02.ProofsProj C02.ProofsIP C02.ProofsPrunePw C04.Model C04.ProofsPlan C04.ProofsExec C04.ProofsRun C04.ProofsBound C04.ProofsPoint C02.ProofsSchedAll.
+  C02.ProofsSched C02.ProofsProj C02.ProofsIP C02.ProofsPrunePw C04.Model C04.Spec C04.ProofsPlan C04.ProofsExec C04.ProofsRun C04.ProofsBound C04.ProofsPoint C04.ProofsPointExact C02.ProofsSchedAll.
 Import ListNotations.
 Local Open Scope Q_scope.
 
@@ -141,6 +141,30 @@ Theorem best_action_backup_is_plan : forall m, (0 < nO m)%nat -> obs_clean m ->
 Proof. exact best_action_backup_is_plan_lemma. Qed.
 Print Assumptions best_action_backup_is_plan.
 
+(* The best-action backup crossSumBestAtBelief(b, all actions) — the single operation LinearSupport
+   runs at each vertex, PERSEUS/PBVI at each belief: its reported value is the dot product of its
+   vector with b and equals the FULL one-step look-ahead (maximum over all actions) of the previous
+   surface at b ... *)
+Theorem best_action_backup_value : forall m, (0 < nO m)%nat -> 0 <= gam (pm m) -> obs_clean m ->
+  forall w b, w <> [] -> wfl (nS (pm m)) w -> length b = nS (pm m) -> (0 < nA (pm m))%nat ->
+  snd (csbb_all m w b) == dot (vals (fst (csbb_all m w b))) b /\
+  snd (csbb_all m w b) == maxl (map (lookahead m w b) (seq 0 (nA (pm m)))).
+Proof. exact best_action_backup_value_lemma. Qed.
+Print Assumptions best_action_backup_value.
+
+(* ... hence, when the previous surface is exact (equals expectimax of horizon n at every
+   unnormalised belief), the new entry ATTAINS expectimax of horizon n+1 at the backed-up belief.
+   With plan_surface_le_EV (plans never exceed expectimax) this is the partial correctness of every
+   solver that assembles its surface from best-action backups at chosen beliefs or vertices
+   (LinearSupport, and PBVI/PERSEUS when their previous surface is exact): below EV everywhere,
+   equal to EV at every belief that was backed up. *)
+Theorem best_action_backup_exact : forall m, wf_pomdp1 m -> obs_clean m ->
+  forall n w b, w <> [] -> wfl (nS (pm m)) w -> length b = nS (pm m) -> nonneg b ->
+  (forall tau, nonneg tau -> length tau = nS (pm m) -> vbest w tau == EV m n tau) ->
+  snd (csbb_all m w b) == EV m (S n) b /\ dot (vals (fst (csbb_all m w b))) b == EV m (S n) b.
+Proof. exact best_action_backup_exact_lemma. Qed.
+Print Assumptions best_action_backup_exact.
+
 (* A value function made of plans is a sound LOWER bound on the optimal value (for every solver's
    output, whatever produced it): no conditional plan can promise more than expectimax, provided the
    horizon-0 entries promise nothing. *)
@@ -176,3 +200,31 @@ Example ex_chain_nonvacuous :
   (forall l e, In e (prune_pw l) -> In e l) /\ (forall l, l <> [] -> prune_pw l <> []) /\
   (1 < length (snd (ip_chain prune_pw ex_pomdp4 2)))%nat /\ ops_ok (nO ex_pomdp4) = true.
 Proof. split; [exact prune_pw_sub| split; [exact prune_pw_ne|]]. split; [vm_compute; lia| vm_compute; reflexivity]. Qed.
+
+(* Non-vacuity of best_action_backup_exact: on ex_pomdp4 the horizon-0 surface (one zero vector) is
+   exact for n = 0, every hypothesis holds, and the attained value EV 1 is not trivial. *)
+Example ex_best_action_backup_exact :
+  let w0 := [ {| vals := vzero 2; act := 0%nat; obs := [] |} ] in
+  wf_pomdp1 ex_pomdp4 /\ w0 <> [] /\ wfl 2 w0 /\ nonneg [1#2; 1#2] /\
+  (forall tau, nonneg tau -> length tau = 2%nat -> vbest w0 tau == EV ex_pomdp4 0 tau) /\
+  snd (csbb_all ex_pomdp4 w0 [1#2; 1#2]) == 1 # 2 /\ EV ex_pomdp4 1 [1#2; 1#2] == 1 # 2.
+Proof.
+  cbv zeta. split; [| split; [discriminate| split; [| split; [| split; [| split]]]]].
+  - unfold wf_pomdp1, wf_mdp1, simplex, is_dist. cbn [pm nS nA gam P R nO Ob ex_pomdp4 length].
+    repeat split; try lia; try lra; try reflexivity.
+    + intros [|[|a]] Ha; try lia; reflexivity.
+    + destruct a as [|[|a]]; destruct s as [|[|s]]; try lia; reflexivity.
+    + destruct a as [|[|a]]; destruct s as [|[|s]]; try lia; unfold nonneg, row; cbn [nth]; repeat constructor; lra.
+    + destruct a as [|[|a]]; destruct s as [|[|s]]; try lia; unfold row; cbn [nth qsum]; lra.
+    + intros [|[|s]] Hs; try lia; reflexivity.
+    + intros [|[|a]] Ha; try lia; reflexivity.
+    + destruct a as [|[|a]]; destruct s as [|[|s]]; try lia; reflexivity.
+    + destruct a as [|[|a]]; destruct s as [|[|s]]; try lia; unfold nonneg, row; cbn [nth]; repeat constructor; lra.
+    + destruct a as [|[|a]]; destruct s as [|[|s]]; try lia; unfold row; cbn [nth qsum]; lra.
+  - repeat constructor.
+  - repeat constructor; lra.
+  - intros tau _ Hl. destruct tau as [|x [|y [|z t]]]; try discriminate.
+    cbn [EV]. unfold vbest, best, valsof, vzero. cbn [map repeat maxl qmax_from dot]. vm_compute. destruct x, y; cbn; ring_simplify; reflexivity.
+  - vm_compute; reflexivity.
+  - vm_compute; reflexivity.
+Qed.
